@@ -178,6 +178,10 @@ class Rules:
         return b2
 
     def apply(self, b, anyhow=True):
+        # R0 method chains are joined on one line (`x\n   .f()` -> `x.f()`), so rules and substitutions do not depend on rustfmt's wrapping
+        b = re.sub(r'\n\s*\.(?=[A-Za-z_])', '.', b)
+        b = self.sub('R13', r'\bcrate::v1::', 'v1::', b)
+        b = self.sub('R13', r'\bcrate::(?=[A-Z])', '', b)
         # R2 float literals (also as method receivers: 2.0f64.powi)
         b = self.sub('R2', r'(?<![\w.])(\d+\.\d+(?:e-?\d+)?|\d+\.\d*e-?\d+|\d+e-?\d+)(?:_?f64)?(?![\w])', lambda m: self.lit_name(m.group(0)), b)
         b = self.sub('R2', r'(?<![\w.])(\d+)\.(?=\s*[;,)\]}])', lambda m: self.lit_name(m.group(1) + '.0'), b)
@@ -233,6 +237,8 @@ class Rules:
         # R13 debug_assert! is compiled out of release builds; dropped
         b = self.sub('R13', r'debug_assert!' + PAREN + r';', '', b)
         b = self.sub('R8', r'log::\w+!' + PAREN + r';', '', b)
+        # R19b: `Enum::Variant as i32` on prost enums -> generated conversion (codes are 0..n in declaration order, checked by v1types)
+        b = self.sub('R19', r'\b(Equality|Kind|Sense|Optimality|Relaxation)::(\w+) as i32\b', lambda m: '%s_as_i32(%s::%s)' % (m.group(1).lower(), m.group(1), m.group(2)), b)
         # R12: iterator searches on a Vec -> trusted helpers whose contracts speak about the closure's own ensures
         RECV = r'((?:&?\w+)(?:\s*\.\s*\w+)*)'
         for meth, helper in (('position', 'iter_position'), ('find', 'iter_find'), ('any', 'iter_any'), ('all', 'iter_all')):
@@ -387,7 +393,7 @@ class Unit:
     """One function of /repo under contract."""
 
     def __init__(self, name, file, fn, header, impl=None, sig=None, wrap=('', ''), loops=(), subs=(), proofs=(),
-                 pre='', anyhow=True, fn_rx=None, serves=(), note='', rules=True, post_subs=(), text=None, subs_all=(), closures=None):
+                 pre='', anyhow=True, fn_rx=None, serves=(), note='', rules=True, post_subs=(), text=None, subs_all=(), closures=None, rsubs=()):
         self.name = name          # display name, e.g. "Bound::pow"
         self.file = file
         self.impl = impl          # regex of the impl header (None = free fn)
@@ -400,6 +406,7 @@ class Unit:
         self.subs = list(subs)    # (from, to) exact-text, each exactly once, applied after the rules
         self.post_subs = list(post_subs)
         self.subs_all = list(subs_all)   # (from, to, count): every occurrence, count must match
+        self.rsubs = list(rsubs)         # (regex, replacement, expected count) applied after the rules
         self.closures = closures  # None = not checked; else list of dicts (params, typed, ret, ensures)
         self.proofs = list(proofs)  # (anchor, text): anchor 'start' | ('before', regex) | ('after', regex)
         self.pre = pre            # text emitted before the impl (e.g. SpecImpl blocks)
@@ -425,6 +432,10 @@ class Unit:
             if body.count(a) != 1:
                 raise LostAnchor('substitution source %r occurs %d times in %s' % (a, body.count(a), self.name))
             body = body.replace(a, b)
+        for rx, rep, cnt in self.rsubs:
+            body, n = re.subn(rx, rep, body)
+            if n != cnt:
+                raise LostAnchor('pattern %r occurs %d times in %s (contract written for %d)' % (rx, n, self.name, cnt))
         for a, b, cnt in self.subs_all:
             if body.count(a) != cnt:
                 raise LostAnchor('substitution source %r occurs %d times in %s (contract written for %d)' % (a, body.count(a), self.name, cnt))
